@@ -637,7 +637,10 @@ closing:
 	// handshake, read, or write cannot prevent Close from completing.
 	c.closeErr = c.underlyingConn.Close()
 
-	if previous == clientStateHandshaking {
+	// The error state is published before Handshake clears the handshake and
+	// session fields, so a handshake that just failed is waited for like one
+	// that is still running.
+	if previous == clientStateHandshaking || previous == clientStateError {
 		<-c.handshakeDone
 	}
 	c.wg.Wait()
